@@ -78,8 +78,7 @@ static void wr32le(Bytes &f, size_t at, uint32_t v) { for (int i = 0; i < 4; i++
 static int open_damaged(const std::string &path, const Bytes &bytes, bool verify, bool by_fd, RunResult &res)
 {
 	write_file(path, bytes);
-	mtbl_reader_options *ro = mtbl_reader_options_init();
-	mtbl_reader_options_set_verify_checksums(ro, verify);
+	mtbl_reader_options *ro = make_reader_options(verify, optvar_next() & 1);
 	int outcome;
 	sim_mmap_exact_heap(1);
 	if (SIM_TRAP_TRY()) {
@@ -102,8 +101,7 @@ static int open_damaged(const std::string &path, const Bytes &bytes, bool verify
 static bool read_with_verify(const std::string &path, int how, const Bytes &target, std::vector<std::pair<Bytes, Bytes>> &got, bool &trapped, bool &opened)
 {
 	got.clear(); trapped = false; opened = false;
-	mtbl_reader_options *ro = mtbl_reader_options_init();
-	mtbl_reader_options_set_verify_checksums(ro, true);
+	mtbl_reader_options *ro = make_reader_options(true, optvar_next() & 1);
 	mtbl_reader *rd = nullptr;
 	mtbl_iter *it = nullptr;
 	if (SIM_TRAP_TRY()) {
